@@ -65,7 +65,10 @@ Theorem C07_cursor_consistent : forall ids,
 Proof. exact cursor_consistent. Qed.
 Print Assumptions C07_cursor_consistent.
 
-(* groupby: the groups hold exactly the labelled (selected) jobs, each once per selection *)
+(* groupby: the groups hold exactly the labelled (selected) jobs, each once per selection.
+   The four groupby theorems are stated for an ARBITRARY labelled list ls, so they cover every way the labels come
+   about: a key, a tuple of keys, a default, key None (label = the job id) and a caller's function (CaseGroupFn of
+   CorrC07.v, where the labels are a table the harness obtains by applying the function to each job by itself). *)
 Theorem C07_groupby_members_exact : forall ls,
   Permutation (map snd ls) (flat_map snd (group_adjacent (sort_labeled ls) None)).
 Proof. exact groupby_members_exact. Qed.
